@@ -53,6 +53,11 @@ pub struct DtScenario {
     pub script: Vec<N>,
     /// Local sets issued through the handle (value downlink only): (after how many polls, value).
     pub local_sets: Vec<(u32, i32)>,
+    /// The handle through which local sets are sent is dropped after this many polls of the "local" task
+    /// (after the sets scheduled before that): the downlink task switches to its read-only mode, which must
+    /// not change what it reports.
+    #[serde(default, skip_serializing_if = "Option::is_none")]
+    pub drop_handle_after: Option<u32>,
     /// Capacity of the channel that carries the notifications (small => frames are fragmented).
     pub in_cap: u32,
     pub out_cap: u32,
@@ -73,10 +78,22 @@ pub fn generate(seed: u64, map: bool) -> DtScenario {
     let legal = rng.chance(9, 10);
     let mut script = vec![];
     let mut next = 1000;
-    let keys = rng.range(1, 5) as i32;
+    // A third of the map scripts keep larger maps alive and concentrate on take / drop / remove, so that sequences
+    // such as drop, remove, drop on a map of five or more keys occur (separate stream for the choice).
+    let structured = map && root.sub("structured").chance(1, 3);
+    let keys = if structured { rng.range(4, 8) as i32 } else { rng.range(1, 5) as i32 };
     let mut ev = |rng: &mut Rng, next: &mut i32| -> N {
         *next += 1;
-        if map {
+        if map && structured {
+            let k = rng.range_i(0, keys as i64 - 1) as i32;
+            match rng.below(20) {
+                0..=7 => N::Update(k, *next),
+                8..=11 => N::Remove(k),
+                12..=14 => N::Take(rng.range((keys as u64).saturating_sub(3), keys as u64 + 1)),
+                15..=18 => N::Drop(rng.range(0, 2)),
+                _ => N::Clear,
+            }
+        } else if map {
             let k = rng.range_i(0, keys as i64 - 1) as i32;
             match rng.below(20) {
                 0..=10 => N::Update(k, *next),
@@ -94,7 +111,14 @@ pub fn generate(seed: u64, map: bool) -> DtScenario {
         let sessions = rng.range(1, 3);
         for s in 0..sessions {
             script.push(N::Linked);
-            let pre = rng.range(0, 8);
+            let pre = if structured { rng.range(4, 14) } else { rng.range(0, 8) };
+            if structured {
+                // Fill the map first.
+                for k in 0..keys {
+                    next += 1;
+                    script.push(N::Update(k, next));
+                }
+            }
             for _ in 0..pre {
                 script.push(ev(&mut rng, &mut next));
             }
@@ -105,7 +129,7 @@ pub fn generate(seed: u64, map: bool) -> DtScenario {
                     script.push(ev(&mut rng, &mut next));
                 }
                 script.push(N::Synced);
-                let post = rng.range(0, 10);
+                let post = if structured { rng.range(4, 18) } else { rng.range(0, 10) };
                 for _ in 0..post {
                     script.push(ev(&mut rng, &mut next));
                 }
@@ -140,6 +164,10 @@ pub fn generate(seed: u64, map: bool) -> DtScenario {
         legal,
         script,
         local_sets,
+        drop_handle_after: {
+            let mut hr = root.sub("drop-handle");
+            if !map && hr.chance(1, 4) { Some(hr.range(0, 40) as u32) } else { None }
+        },
         // Frames are delivered whole unless the capacity is small.
         in_cap: *rng.pick(&[4096u32, 4096, 4096, 64, 16, 5, 1]),
         out_cap: *rng.pick(&[4096u32, 64, 8]),
@@ -324,13 +352,17 @@ pub async fn run(sc: &DtScenario) -> Record {
             }
         }
     });
-    if !sc.local_sets.is_empty() {
+    if !sc.local_sets.is_empty() || sc.drop_handle_after.is_some() {
         let sets = sc.local_sets.clone();
+        let drop_after = sc.drop_handle_after;
         exec.spawn("local", 64, async move {
             let mut polls = 0u32;
             let mut sets = sets;
             sets.sort();
             for (after, v) in sets {
+                if drop_after.map(|d| after > d).unwrap_or(false) {
+                    break;
+                }
                 while polls < after {
                     Yield(false).await;
                     polls += 1;
@@ -339,12 +371,21 @@ pub async fn run(sc: &DtScenario) -> Record {
                     break;
                 }
             }
-            // Keep the handle alive until the end of the run.
+            if let Some(d) = drop_after {
+                while polls < d {
+                    Yield(false).await;
+                    polls += 1;
+                }
+                drop(set_tx);
+            } else {
+                // Keep the handle alive until the end of the run.
+                let _keep = set_tx;
+                std::future::pending::<()>().await;
+            }
             std::future::pending::<()>().await;
         });
     } else {
-        // Keep the handle alive (dropping it switches the task to read-only mode, which is legal too,
-        // and is exercised when there are local sets and the task ends first).
+        // Keep the handle alive.
         exec.spawn("hold", 64, async move {
             let _keep = set_tx;
             std::future::pending::<()>().await;
